@@ -32,8 +32,8 @@ def transports(pcap):
         raw = diff.frame_is_raw(r[4])
         for depth, d in diff.ip_datagrams(r[4], raw):
             tot, ident, frag, ttl, proto, cs, src, dst = struct.unpack(">HHHBBHII", d[2:20])
-            if tot != len(d):
-                continue
+            if tot != len(d) and not (depth == 0 and len(d) > 65535 and tot == len(d) % 65536):
+                continue            # (a top-level datagram beyond 65535 bytes: the 16-bit total length wraps, the record holds it whole)
             if frag & 0x3fff:
                 # a flow datagram given an explicit frag_off is still a whole UDP datagram (header + payload) under a
                 # non-zero offset field: recognised by its own length field; slices of fragmentation contexts are not
@@ -87,6 +87,20 @@ def special_cases(ctx):
         c.stmts = [Import("ipv4"), Let("i", Call("ipv4::icmp::flow", IP(rand_ip(r)), IP(rand_ip(r))))] + \
                   [Do(Call("i." + h, STR(b"p"))) for h in hist]
         cases.append(c)
+    # segments and datagrams beyond 65535 bytes (read from data files): every byte is under the checksum
+    for i, n in enumerate([65535, 65536, 70000, 66001] if ctx.thorough else [65536, 70000]):
+        c = Case()
+        c.name, c.text, c.meta, c.gen = "ov%d" % i, None, [], {"kind": "oversize"}
+        fn = "c03ov%d.bin" % i
+        c.files = {fn: bytes(r.getrandbits(8) for _ in range(n))}
+        f = Call("io::file", STR("@WD@/" + fn))
+        c.stmts = [Import("ipv4"), Import("io"), Let("t", Call("ipv4::tcp::flow", SOCK("1.2.3.4:1"), SOCK("1.2.3.5:2"))),
+                   Do(Call("t.open")), Do(Call("t.client_message", _x=[f])), Do(Call("t.server_segment", _x=[f])),
+                   Let("u", Call("ipv4::udp::flow", SOCK("1.2.3.4:1"), SOCK("1.2.3.5:2"))), Do(Call("u.client_dgram", _x=[f]))]
+        cases.append(c)
+    from props.c02 import fix_paths
+    import os
+    fix_paths([c for c in cases if c.gen.get("kind") == "oversize"], common.BUILD + "/work/c03-%d" % os.getpid())
     # payloads written as several arguments of odd and even lengths (the checksum is over the joined bytes: an odd piece
     # in the middle shifts every later 16-bit word), through every transport builder
     for i in range(24 if ctx.thorough else 8):
@@ -171,8 +185,9 @@ def run(ctx):
                 queries.append("tcp %d %d %s" % (src, dst, l4.hex()))
                 owners.append((c, rec, depth, "tcp-csum", l4))
             elif proto == 17:
-                queries.append("udplen " + l4.hex())
-                owners.append((c, rec, depth, "udp-len", l4))
+                if len(l4) <= 65535:
+                    queries.append("udplen " + l4.hex())
+                    owners.append((c, rec, depth, "udp-len", l4))
                 if len(l4) >= 8 and l4[6:8] != b"\x00\x00":
                     queries.append("udpcsum %d %d %s" % (src, dst, l4.hex()))
                     owners.append((c, rec, depth, "udp-csum", l4))
